@@ -94,6 +94,17 @@ func runWitnesses(p *Prop, r *Run) {
 		locksCache = map[*ssaFunc]map[ssaInstr][]string{}
 		runtime.GC()
 	}
+	for _, d := range seedDirs(p.ID) {
+		res := runSeedWitness(p, d)
+		if res.Status == "fired" {
+			fired++
+		} else if res.Status != "skipped" {
+			fmt.Printf("  WITNESS %s: %s %s\n", res.Name, res.Status, res.Detail)
+		}
+		results = append(results, res)
+		locksCache = map[*ssaFunc]map[ssaInstr][]string{}
+		runtime.GC()
+	}
 	if r.Extra == nil {
 		r.Extra = map[string]interface{}{}
 	}
@@ -124,6 +135,15 @@ func selftest(args []string) int {
 			res := runWitness(p, wt)
 			fmt.Printf("%s %-40s %-8s %s\n", id, wt.Name, res.Status, res.Detail)
 			if res.Status != "fired" {
+				bad++
+			}
+			locksCache = map[*ssaFunc]map[ssaInstr][]string{}
+			runtime.GC()
+		}
+		for _, d := range seedDirs(id) {
+			res := runSeedWitness(p, d)
+			fmt.Printf("%s %-40s %-8s %s\n", id, res.Name, res.Status, res.Detail)
+			if res.Status != "fired" && res.Status != "skipped" {
 				bad++
 			}
 			locksCache = map[*ssaFunc]map[ssaInstr][]string{}
